@@ -117,7 +117,7 @@ func StartWatchdog(limit time.Duration, onStall func(stacks string) bool) {
 			} else if drainSeen.IsZero() {
 				drainSeen = time.Now()
 			}
-			if time.Since(lastMove) > limit || (!drainSeen.IsZero() && time.Since(drainSeen) > 8*time.Second) {
+			if time.Since(lastMove) > limit || (!drainSeen.IsZero() && time.Since(drainSeen) > 30*time.Second) {
 				buf := make([]byte, 8<<20)
 				n := runtime.Stack(buf, true)
 				st := string(buf[:n])
